@@ -87,6 +87,7 @@ type CallRule struct {
 	Assigns  []string  // ghost fields the matched calls change
 	Pure     bool      // the matched calls are assumed not to change the modelled (non-ghost) heap
 	Optional bool      // the rule may match no call site (otherwise that is reported as vacuous)
+	Immutable []string // T.field patterns assumed constant during an invocation of a matched caller
 	Props    []string
 	File     string
 	Line     int
@@ -375,6 +376,11 @@ func (cs *ContractSet) parseFile(path, pkg string) error {
 				return fail("sweep outside func")
 			}
 			cur.Sweep = true
+		case "immutable":
+			if curRule == nil {
+				return fail("immutable outside callrule")
+			}
+			curRule.Immutable = append(curRule.Immutable, splitList(rest)...)
 		case "optional":
 			if curRule == nil {
 				return fail("optional outside callrule")
